@@ -15,11 +15,15 @@ Oracle (model-independent), on the implementation's behaviour:
     trees with partial layout, e.g. parsed queries edited by hand): parser.parse(str(auto_head_tail(t))) == t.
     Failures are classified by executable predicates on the INPUT (F4, F15); anything else is a violation.
 
-The proved round trip (props/C13r.v, `C13_round_trip_partial`): the guard `AhtRoundTrip.rt_ok` is evaluated ON THE
-MODEL for every case that has a result, and every case inside the guard must round-trip on the implementation
-(`chk_rt`, with a canary: an in-guard tree whose recorded outcome is corrupted must be reported); how many
-generated trees are inside the guard is measured (`rt_ok_cases`), with a second canary (a tree known to be
-inside must be counted).
+The proved round trip (props/C13x.v, `C13x_round_trip_partial`, which subsumes props/C13r.v's
+`C13_round_trip_partial`): the guard `AhtRoundTripMore.rt_ok2` (= `AhtRoundTrip.rt_ok` + bracketed ranges + signed
+operands in juxtaposition outside F4) is evaluated ON THE MODEL for every case that has a result, and every case
+inside the guard must round-trip on the implementation (`chk_rt`, with canaries: an in-guard tree whose recorded
+outcome is corrupted must be reported, once for a tree of the old guard and once for a tree that only the new
+guard contains); how many generated trees are inside each guard is measured (`rt_ok_cases`, `rt_ok2_cases`,
+`rt_ok2_only_cases` = inside rt_ok2 but not rt_ok, with ranges / with signed juxtaposition), with further canaries
+(trees known to be inside must be counted), and `rt_ok => rt_ok2` (theorem C13x_subsumes_C13r) is re-checked case
+by case.
 
 Inputs: single calls on fresh trees (corpus, random, grammar-shaped); parsed queries edited by hand (operands
 appended / inserted / replaced by layout-free nodes, .expr/.a/.low/.high reassigned, hand-made parents), so
@@ -534,11 +538,13 @@ def correspond(model_ok, res):
     gg = GrammarGen(r, T)
 
     cases, payloads = [], []
-    rt_cases, rt_payloads = [], []       # (input, implementation's round trip) for the proved guard rt_ok
+    rt_cases, rt_payloads = [], []       # (input, implementation's round trip) for the proved guard rt_ok2
+    rt_feat = []                         # (has a Range node, has a signed operand in juxtaposition) per rt case
     seen = set()
     dist = {"kind": {}, "aht_raises": 0, "expressible_layout_free": 0, "expressible_blank_layout": 0,
             "roundtrip_holds": 0, "f4": 0, "f15": 0, "unmodelled": 0, "filled_somewhere": 0,
-            "history_steps": 0, "positioned_parent_of_bare_child": 0, "rt_ok_cases": 0}
+            "history_steps": 0, "positioned_parent_of_bare_child": 0, "rt_ok_cases": 0, "rt_ok2_cases": 0,
+            "rt_ok2_only_cases": 0, "rt_ok2_only_with_range": 0, "rt_ok2_only_with_signed_juxtaposition": 0}
 
     def call(tree):
         """ONE call of auto_head_tail and nothing else that could touch the transformer: the input is serialised
@@ -632,8 +638,12 @@ def correspond(model_ok, res):
         payloads.append(pay)
         if rt is not None:
             rt_cases.append("(%s, %s)" % (rec["before"], lib.g_bool(rt)))
-            rt_payloads.append(dict(pay, why="inside the proved guard rt_ok (C13_round_trip_partial) but the "
+            rt_payloads.append(dict(pay, why="inside the proved guard rt_ok2 (C13x_round_trip_partial) but the "
                                              "implementation's round trip fails: %r %s" % (s, rt_why)))
+            rt_feat.append((any(type(n) is T.Range for _, n in gentree.all_nodes(keep)),
+                            any(type(n) is T.UnknownOperation and
+                                any(leftmost(T, b) in ("PLUS", "MINUS", "TO") for b in n.children[1:])
+                                for _, n in gentree.all_nodes(keep))))
         if rec["desc"] not in seen and gentree.count_nodes(keep) > 1:
             seen.add(rec["desc"])
 
@@ -774,28 +784,52 @@ def correspond(model_ok, res):
         if i < len(cases):
             res.disagreements.append(payloads[i])
 
-    # ---- the proved round trip: inside the guard rt_ok (evaluated on the model) the implementation round-trips
+    # ---- the proved round trip: inside the guard rt_ok2 (evaluated on the model) the implementation round-trips
     inside = T.AndOperation(T.Word("a"), T.Group(T.OrOperation(T.Word("b"), T.Phrase('"c d"'))))
-    g_inside = lib.g_item(inside)
-    defs_rt = ("Definition chk_rt (c : item * bool) : bool := let '(t, b) := c in negb (rt_ok t) || b.\n"
+    # inside rt_ok2 only: ranges with every bound form, signed operands in juxtaposition (not F4)
+    inside2 = T.UnknownOperation(
+        T.SearchField("f", T.Boost(T.Range(T.Prohibit(T.Word("1")), T.Phrase('"b c"'), False, True), 2)),
+        T.Prohibit(T.Range(T.Word("*"), T.Prohibit(T.Word("5")))), T.Plus(T.Word("x")), T.Word("TO"))
+    g_inside, g_inside2 = lib.g_item(inside), lib.g_item(inside2)
+    mods_rt = "Base Decimal Tree TreeEq AutoHeadTail AhtRoundTrip AhtRoundTripMore"
+    defs_rt = ("Definition chk_rt (c : item * bool) : bool := let '(t, b) := c in negb (rt_ok2 t) || b.\n"
+               "Definition chk_out2 (c : item * bool) : bool := let '(t, _) := c in negb (rt_ok2 t).\n"
                "Definition chk_out (c : item * bool) : bool := let '(t, _) := c in negb (rt_ok t).")
+    n_rt = len(rt_cases)
     try:
-        # canary 1: an in-guard tree recorded as NOT round-tripping must be reported
-        bad_rt = lib.eval_cases("C13", "Base Decimal Tree TreeEq AutoHeadTail AhtRoundTrip", defs_rt,
-                                rt_cases + ["(%s, false)" % g_inside], "chk_rt", shard=120)
-        # which cases are inside the guard (canary 2: the in-guard tree must be counted)
-        in_rt = lib.eval_cases("C13", "Base Decimal Tree TreeEq AutoHeadTail AhtRoundTrip", defs_rt,
-                               rt_cases + ["(%s, true)" % g_inside], "chk_out", shard=120)
+        # canaries 1, 2: an in-guard tree recorded as NOT round-tripping must be reported (old guard / new part)
+        bad_rt = lib.eval_cases("C13", mods_rt, defs_rt,
+                                rt_cases + ["(%s, false)" % g_inside, "(%s, false)" % g_inside2], "chk_rt", shard=120)
+        # which cases are inside the guards (canaries 3, 4: the in-guard trees must be counted; canary 5: the
+        # tree with ranges and signed operands must NOT be counted as inside the old guard)
+        in_rt2 = lib.eval_cases("C13", mods_rt, defs_rt,
+                                rt_cases + ["(%s, true)" % g_inside, "(%s, true)" % g_inside2], "chk_out2", shard=120)
+        in_rt = lib.eval_cases("C13", mods_rt, defs_rt,
+                               rt_cases + ["(%s, true)" % g_inside, "(%s, true)" % g_inside2], "chk_out", shard=120)
     except Exception as e:
         res.model_error = str(e)
         return res
-    if len(rt_cases) not in bad_rt or len(rt_cases) not in in_rt:
-        res.model_error = "canary not detected: the rt_ok comparison is vacuous"
-    dist["rt_ok_cases"] = len([i for i in in_rt if i < len(rt_cases)])
+    if n_rt not in bad_rt or n_rt + 1 not in bad_rt or n_rt not in in_rt2 or n_rt + 1 not in in_rt2 \
+            or n_rt not in in_rt or n_rt + 1 in in_rt:
+        res.model_error = "canary not detected: the rt_ok2 comparison is vacuous"
+    old_in = set(i for i in in_rt if i < n_rt)
+    new_in = set(i for i in in_rt2 if i < n_rt)
+    dist["rt_ok_cases"] = len(old_in)
+    dist["rt_ok2_cases"] = len(new_in)
+    only = sorted(new_in - old_in)
+    dist["rt_ok2_only_cases"] = len(only)
+    dist["rt_ok2_only_with_range"] = len([i for i in only if rt_feat[i][0]])
+    dist["rt_ok2_only_with_signed_juxtaposition"] = len([i for i in only if rt_feat[i][1]])
     if dist["rt_ok_cases"] < 20:
         res.model_error = "only %d generated trees are inside the guard rt_ok" % dist["rt_ok_cases"]
+    if dist["rt_ok2_only_with_range"] < 10 or dist["rt_ok2_only_with_signed_juxtaposition"] < 5:
+        res.model_error = ("the new part of the guard rt_ok2 is hardly exercised: %d generated trees with a range, %d "
+                           "with a signed operand in juxtaposition" %
+                           (dist["rt_ok2_only_with_range"], dist["rt_ok2_only_with_signed_juxtaposition"]))
+    for i in sorted(old_in - new_in):      # theorem C13x_subsumes_C13r, case by case
+        res.disagreements.append(dict(rt_payloads[i], why="inside rt_ok but outside rt_ok2 (C13x_subsumes_C13r)"))
     for i in bad_rt:
-        if i < len(rt_cases):
+        if i < n_rt:
             res.failures.append((rt_payloads[i], None))
     return res
 
@@ -803,7 +837,7 @@ def correspond(model_ok, res):
 SPEC = {
     "id": "C13",
     "targets": ["props/C13.vo"],
-    "model_targets": ["model/AutoHeadTail.vo", "model/TreeEq.vo", "model/AhtRoundTrip.vo"],
+    "model_targets": ["model/AutoHeadTail.vo", "model/TreeEq.vo", "model/AhtRoundTrip.vo", "model/AhtRoundTripMore.vo"],
     "module": "C13",
     "theorems": ["C13_fails_exactly", "C13_equal_to_input", "C13_only_fills_empty", "C13_idempotent",
                  "C13_roundtrip_refuted", "C13_roundtrip_noF4_refuted", "C13_roundtrip_partial"],
@@ -811,23 +845,32 @@ SPEC = {
     # proofs/AhtRoundTripProofs.v; concluded with C03c_grammar_trees)
     "more": [{"module": "C13r", "target": "props/C13r.vo",
               "theorems": ["C13_round_trip_partial", "C13_round_trip_tokens", "C13r_expressible_guard_refuted",
-                           "C13r_numeral_guard"]}],
+                           "C13r_numeral_guard"]},
+             # the same for the wider guard model/AhtRoundTripMore.v rt_ok2 (+ bracketed ranges, + signed operands in
+             # juxtaposition outside F4; proofs/AhtRoundTripMoreProofs.v; concluded with C03d_grammar_trees_parse)
+             {"module": "C13x", "target": "props/C13x.vo",
+              "theorems": ["C13x_round_trip_partial", "C13x_round_trip_tokens", "C13x_subsumes_C13r",
+                           "C13x_implies_C13r", "C13x_guard_excludes_f4"]}],
     "correspond": correspond,
     "statement": "auto_head_tail raises exactly on an AND/OR/Bool operation without operand; otherwise its result "
                  "equals the input, only empty heads/tails became one blank, it is idempotent and leaves its "
                  "argument untouched (snapshot, implementation only); for layout-free trees the grammar can express "
-                 "the printed result parses back to the input: refuted (F4, F15); PROVED (C13r.v, C13_round_trip_partial) for "
-                 "every tree inside the executable guard rt_ok, any depth and width: operations with >= 2 operands "
+                 "the printed result parses back to the input: refuted (F4, F15); PROVED (C13x.v, C13x_round_trip_partial, which "
+                 "subsumes C13r.v's C13_round_trip_partial: C13x_subsumes_C13r) for "
+                 "every tree inside the executable guard rt_ok2, any depth and width: operations with >= 2 operands "
                  "nested as the parser nests them (an operation directly under a same-or-higher-precedence operation, "
                  "NOT, +, -, a field or ^ is wrapped in a Group; a FieldGroup exactly under a field), words / phrases / "
                  "regexes / field names that are single lexemes (words not AND/OR/NOT), ~ on a word or phrase, ^ on "
                  "what BOOST takes as a whole, degrees that print as [0-9.] numerals reading back to the same number, "
-                 "no operand of an implicit operation but the first starting with + - TO (contains not-F4), no "
+                 "bracketed ranges (either bracket kind on either side) whose bounds are a single-lexeme word that is "
+                 "not reserved (numbers and `*` included; not TO), a single-lexeme phrase, or Prohibit of one of "
+                 "these (`[-1 TO 5]`; Word('-1') is no TERM lexeme and parses back as Prohibit(Word('1'))), "
+                 "in an implicit operation no operand starting with + - TO directly after an AND/OR operation (exactly "
+                 "not-F4, node by node: `a +b`, `-a -b TO`, `a -b OR c` are inside; C13x_guard_excludes_f4), no "
                  "lexeme fusion at `<`/`>` or at a field's colon (contains not-F15; `year:2020` is inside); each guard "
                  "component has a computed witness replayed on the implementation (re-association without the Group is "
-                 "not a luqum defect). Validated by correspondence only: bracketed ranges, signed operands in "
-                 "juxtaposition outside F4 (`a +b`), degrees that are not canonical numerals (Decimal('1.0')), trees "
-                 "with partial layout",
+                 "not a luqum defect). Validated by correspondence only: BoolOperation, degrees that are not canonical "
+                 "numerals (Decimal('1.0')), trees with partial layout",
     "trusted_base": [
         "Coq 8.16.1 kernel (vm_compute used for table facts, witnesses and correspondence; no native_compute)",
         "no axioms (Print Assumptions: closed under the global context)",
@@ -836,10 +879,10 @@ SPEC = {
         "hand-written models coq/model/AutoHeadTail.v (transformer), Eq.v (clone_item, __eq__), Print.v, "
         "Lexer.v/LR.v/Actions.v/Parser.v (parser), tied by differential correspondence on every run",
         "value-based tree model: a Python object shared between two positions is not modelled",
-        "the round trip clause outside the guard rt_ok (C13r.v) is validated by correspondence only; inside it the "
-        "theorem stands on C03c_grammar_trees (LR driver on the generated tables) and on the lexer model",
-        "executable guard coq/model/AhtRoundTrip.v rt_ok, evaluated on the model for every generated tree and "
-        "compared with the implementation's round trip",
+        "the round trip clause outside the guard rt_ok2 (C13x.v) is validated by correspondence only; inside it the "
+        "theorem stands on C03d_grammar_trees_parse (LR driver on the generated tables) and on the lexer model",
+        "executable guards coq/model/AhtRoundTripMore.v rt_ok2 and coq/model/AhtRoundTrip.v rt_ok, evaluated on the "
+        "model for every generated tree and compared with the implementation's round trip",
     ],
     "assumptions": ["trees contain only luqum.tree classes with attributes as the constructors leave them "
                     "(wf_node: implicit degree/force at its default, force normalised)",
